@@ -10,7 +10,9 @@ from mindsdb_sql import parse_sql, get_lexer_parser  # noqa
 from dsim import ops as O  # noqa
 
 rng = random.Random(20240924)
-H = json.load(open(os.environ.get('HARVEST', '/tmp/harvest.json')))
+import gzip
+_hp = os.environ.get('HARVEST') or os.path.join(os.path.dirname(os.path.abspath(__file__)), 'harvest.json.gz')
+H = json.load(gzip.open(_hp, 'rt') if _hp.endswith('.gz') else open(_hp))
 
 
 def stem(msg):
@@ -118,6 +120,9 @@ for d in ('sqlite', 'mysql', 'mindsdb'):
             cands.add(sql[:b])                                  # truncate after token k
             cands.add(sql[:a] + sql[b:])                        # drop token k
             cands.add(sql[:b] + ' ' + sql[a:b] + sql[b:])       # double token k
+            cands.add(sql[:a] + 'foo ' + sql[a:])               # insert an identifier before token k
+            cands.add(sql[:a] + 'by ' + sql[a:])                # insert a keyword before token k
+            cands.add(sql[:a] + '7 ' + sql[a:])                 # insert a number before token k
         for m in sorted(cands):
             if not m.strip():
                 continue
@@ -126,10 +131,59 @@ mut_ops = []
 for (d, oc), lst in sorted(mut_ops_by_class.items()):
     lst = sorted(set(lst))
     rng.shuffle(lst)
-    cap = 4 if oc.startswith('ok:') else 8
+    cap = 4 if oc.startswith('ok:') else 10
     for s in lst[:cap]:
         mut_ops.append({'k': 'parse', 'd': d, 'sql': s})
     strata['mut|%s|%s' % (d, oc)] = min(cap, len(lst))
+
+# ------------------------------------------------------------------ error-state collision families
+# rejected inputs grouped by what the error reporter sees apart from the surrounding text: dialect, the set of expected
+# tokens (i.e. the parser state) and the type of the offending token.  Members of one group differ only in context.
+def err_state(dialect, sql):
+    lexer, parser = get_lexer_parser(dialect)
+    try:
+        ast = parser.parse(lexer.tokenize(re.sub(r'[\s;]+$', '', sql)))
+    except Exception:
+        return None
+    if ast is not None:
+        return None
+    info = getattr(parser, 'error_info', None)
+    if not info:
+        return None
+    bt = info.get('bad_token')
+    return (dialect, tuple(sorted(info.get('expected_tokens') or [])), bt.type if bt is not None else None)
+
+
+def last_line(dialect, sql):
+    try:
+        parse_sql(sql, dialect=dialect)
+    except Exception as e:
+        return str(e).split('\n')[-1]
+    return ''
+
+
+errstate = collections.defaultdict(list)
+for (d, oc), lst in sorted(mut_ops_by_class.items()):
+    if not oc.startswith('err:'):
+        continue
+    for m in sorted(set(lst)):
+        st = err_state(d, m)
+        if st is not None and st[2] is not None and 1 < len(st[1]) < 40:
+            errstate[st].append(m)
+errstate_fams = {}
+for i, (st, lst) in enumerate(sorted(errstate.items(), key=lambda kv: (-len(kv[1]), kv[0]))):
+    by_line = collections.defaultdict(list)
+    for m in lst:
+        by_line[last_line(st[0], m)].append(m)
+    if len(by_line) < 2:
+        continue
+    members = []
+    for line, ms in sorted(by_line.items()):
+        rng.shuffle(ms)
+        members += ms[:3]
+    errstate_fams['errstate_%02d' % len(errstate_fams)] = [{'k': 'parse', 'd': st[0], 'sql': m} for m in members[:10]]
+    if len(errstate_fams) >= 60:
+        break
 
 # ------------------------------------------------------------------ hand-written malformed inputs
 MALFORMED = [
@@ -275,6 +329,36 @@ plan_err = [
     P("show tables", cA),
     P("select * from mindsdb.pred m join int.tab1 t", cA),
 ]
+cTS2 = cat_id({'integrations': ['mysql', 'int'], 'predictor_namespace': 'mindsdb', 'default_namespace': 'mindsdb',
+               'predictor_metadata': [{'name': 'tp3', 'timeseries': True, 'order_by_column': 'pickup_hour',
+                                       'group_by_columns': ['vendor_id', 'zone', 'kind', 'day_type'], 'window': 10, 'horizon': 3},
+                                      {'name': 'tp4', 'timeseries': True, 'order_by_column': 'ts', 'group_by_columns': None, 'window': 5}]})
+plan_err += [
+    P("select * from mysql.data.ny_output as ta join mindsdb.tp3 as tb where ta.fare_amount = 1 and ta.pickup_hour > latest", cTS2),
+    P("select * from mysql.data.ny_output as ta join mindsdb.tp3 as tb where ta.pickup_hour > latest and ta.tip like 'x'", cTS2),
+    P("select * from mysql.data.ny_output as ta join mindsdb.tp3 as tb where ta.pickup_hour > 1 and ta.pickup_hour > 2 and ta.pickup_hour < 9", cTS2),
+    P("select * from mysql.data.ny_output as ta join mindsdb.tp3 as tb where pickup_hour > latest", cTS2),
+    P("select * from mysql.data.ny_output as ta join mindsdb.tp3 as tb where ta.pickup_hour > latest order by ta.pickup_hour", cTS2),
+    P("select * from mysql.data.ny_output as ta join mindsdb.tp3 as tb where ta.pickup_hour > latest group by ta.vendor_id", cTS2),
+    P("select * from mindsdb.tp3 as ta join mindsdb.tp4 as tb where ta.pickup_hour > latest", cTS2),
+    P("select * from mysql.data.ny_output as ta join mindsdb.tp3 as tb where ta.pickup_hour > latest and ta.vendor_id = 1 and ta.zone = 'a'", cTS2),
+    P("select * from mysql.data.ny_output as ta join mindsdb.tp4 as tb where ta.ts > latest", cTS2),
+    P("select * from mysql.data.ny_output as ta join mindsdb.tp4 as tb where ta.other = 3", cTS2),
+    P("select * from mindsdb.pred where x = 1 and x = 2", cA),
+    P("select * from mindsdb.pred where x = 1 or y = 2", cA),
+    P("select * from mindsdb.pred where x = y", cA),
+    P("select x + 1 from mindsdb.pred where x = 1", cA),
+    P("select * from mindsdb.pred where x = 1 having x > 1", cA),
+    P("select * from nowhere.tab1 t1 join int2.tab2 t2 on t1.a = t2.a", cA),
+    P("select * from tab1 t1 join int2.tab2 t2 on t1.a = t2.a", cA),
+    P("select * from int.tab1 t1 join int2.tab2 t2 on t1.a = t2.a where t3.x = 1", cA),
+    P("select * from int.tab1 t1 join (select * from int2.tab2) on t1.a = 1", cA),
+    P("select * from int.tab1 t1 join int2.tab2 t2 on t9.a = t2.a", cA),
+    P("create table int.t3", cA),
+    P("drop table int.t3", cA),
+    P("select * from mindsdb.pred m join mindsdb.other o", cA),
+    P("select * from mindsdb.pred m join int.tab1 t join int2.tab2 t2", cA),
+]
 fam('plan_errors', plan_err)
 
 # ------------------------------------------------------------------ render ops
@@ -319,6 +403,8 @@ fam('reserved_words', [
         "select `status`, `predict` from `model`",
     ]
 ])
+for _n, _ops in errstate_fams.items():
+    fam(_n, _ops)
 # same text family: identical statements many times (text-keyed caches)
 fam('same_text', [
     {'k': 'parse', 'd': 'mindsdb', 'sql': "select a, b from t where a = 1"},
